@@ -134,18 +134,18 @@ impl SourceMapHermes {
 
         let (sm, mapping) = sm.rewrite_with_mapping(options)?;
 
-        if function_maps.len() >= mapping.len() {
-            function_maps = mapping
-                .iter()
-                .map(|idx| function_maps[*idx as usize].take())
-                .collect();
-            raw_facebook_sources = raw_facebook_sources.map(|mut sources| {
-                mapping
-                    .into_iter()
-                    .map(|idx| sources[idx as usize].take())
-                    .collect()
-            });
-        }
+        // `mapping` holds, for every new source, the id it had in the old map; sources
+        // without metadata (the metadata list may be shorter than `sources`) get none.
+        function_maps = mapping
+            .iter()
+            .map(|idx| function_maps.get_mut(*idx as usize).and_then(Option::take))
+            .collect();
+        raw_facebook_sources = raw_facebook_sources.map(|mut sources| {
+            mapping
+                .into_iter()
+                .map(|idx| sources.get_mut(idx as usize).and_then(Option::take))
+                .collect()
+        });
 
         Ok(Self {
             sm,
